@@ -247,6 +247,28 @@ func c16ListBuckets(r *ck.Run) {
 							break
 						}
 					}
+					if mb == "" && prefix == "" {
+						// a continuation token issued for a bucket that has been deleted since (every pool name, present
+						// or absent, is a token the gateway may have handed out earlier): the listing resumes after it
+						for _, tk := range pool {
+							var wantAfter []string
+							for _, b := range want {
+								if b > tk {
+									wantAfter = append(wantAfter, b)
+								}
+							}
+							resp := f.Do(caller, "GET", "/", gw.Q("continuation-token", tk), nil, nil)
+							r.Add("evaluations", 1)
+							r.Distinct(fmt.Sprintf("list-buckets|%d|%s|token=%s", code, caller.Access, tk))
+							if page := xmlAll(resp.Body, "Name"); !resp.OK() || strings.Join(page, ",") != strings.Join(wantAfter, ",") {
+								present := "token-names-an-existing-bucket"
+								if _, ok := own[tk]; !ok {
+									present = "token-names-a-deleted-bucket"
+								}
+								r.Violation(ck.JoinSig("list-buckets", "resume-after-token", present, roleOf(caller)), map[string]any{"population": own, "caller": caller.Access, "token": tk, "expected": wantAfter, "got": page, "status": fmtResp(resp)})
+							}
+						}
+					}
 					r.Distinct(fmt.Sprintf("list-buckets|%d|%s|%s|%s", code, caller.Access, prefix, mb))
 					if strings.Join(got, ",") != strings.Join(want, ",") {
 						kind := "wrong-bucket-set"
